@@ -1,6 +1,6 @@
 /* libc shim linked in front of libc into the tools: read/write/open/getrandom follow a plan from the environment.
  *   VP_FAIL_READ=k / VP_FAIL_WRITE=k / VP_FAIL_OPEN=k / VP_FAIL_RAND=k : the k-th such call (0-based, file descriptors > 2 only) fails
- *   VP_ERRNO=n  errno for the failure (default EIO)        VP_EINTR_READ=k / VP_EINTR_WRITE=k : one EINTR before call k proceeds
+ *   VP_ERRNO=n  errno for the failure (default EIO)        VP_EINTR_READ=k / VP_EINTR_WRITE=k / VP_EINTR_RAND=k : one EINTR before call k proceeds
  *   VP_SHORT=1  every read/write transfers at most 1 byte  VP_COUNTS=file : write "reads writes opens rands" at exit
  *   VP_STDIO=1  descriptors 0 and 1 are subject to the plan too (stdin/stdout modes of asconcrypt) */
 #define _GNU_SOURCE
@@ -13,13 +13,13 @@
 #include <stdarg.h>
 #include <fcntl.h>
 static long nread, nwrite, nrand, nopen; static int inited;
-static long fail_read = -1, fail_write = -1, fail_rand = -1, fail_open = -1, eintr_read = -1, eintr_write = -1; static int short_io, stdio_too, fail_errno = EIO;
+static long fail_read = -1, fail_write = -1, fail_rand = -1, fail_open = -1, eintr_read = -1, eintr_write = -1, eintr_rand = -1; static int short_io, stdio_too, fail_errno = EIO;
 static void init(void)
 {
     const char *e; if (inited) return; inited = 1;
     if ((e = getenv("VP_FAIL_READ"))) fail_read = atol(e); if ((e = getenv("VP_FAIL_WRITE"))) fail_write = atol(e);
     if ((e = getenv("VP_FAIL_RAND"))) fail_rand = atol(e); if ((e = getenv("VP_FAIL_OPEN"))) fail_open = atol(e);
-    if ((e = getenv("VP_EINTR_READ"))) eintr_read = atol(e); if ((e = getenv("VP_EINTR_WRITE"))) eintr_write = atol(e);
+    if ((e = getenv("VP_EINTR_READ"))) eintr_read = atol(e); if ((e = getenv("VP_EINTR_WRITE"))) eintr_write = atol(e); if ((e = getenv("VP_EINTR_RAND"))) eintr_rand = atol(e);
     if ((e = getenv("VP_SHORT"))) short_io = atoi(e); if ((e = getenv("VP_STDIO"))) stdio_too = atoi(e); if ((e = getenv("VP_ERRNO"))) fail_errno = atoi(e);
 }
 ssize_t read(int fd, void *b, size_t n)
@@ -41,7 +41,7 @@ int open(const char *path, int flags, ...)
     long k = nopen++; if (k == fail_open) { errno = EACCES; return -1; }
     return (int)syscall(SYS_openat, AT_FDCWD, path, flags, mode);
 }
-ssize_t getrandom(void *b, size_t n, unsigned f) { init(); long k = nrand++; if (k == fail_rand) { errno = ENOSYS; return -1; } return syscall(SYS_getrandom, b, n, f); }
+ssize_t getrandom(void *b, size_t n, unsigned f) { init(); if (nrand == eintr_rand) { eintr_rand = -1; errno = EINTR; return -1; } long k = nrand++; if (k == fail_rand) { errno = ENOSYS; return -1; } return syscall(SYS_getrandom, b, n, f); }
 __attribute__((destructor)) static void fin(void)
 {
     const char *e = getenv("VP_COUNTS");
